@@ -62,3 +62,276 @@ theorem shape_mismatch (f g : FileV) (l : List FileV) (t : Bytes) :
   refine ⟨rfl, rfl, rfl, rfl, rfl⟩
 
 end C10
+
+/-! ### the whole form: `Multipart::parse` after an RFC 7578 encoder -/
+namespace Ohkami.Multipart
+open Ohkami
+
+theorem readWhile_stop (p : UInt8 → Bool) : ∀ (a : Bytes) (c : UInt8) (rest : Bytes), (∀ b ∈ a, p b = true) → p c = false →
+    readWhile p (a ++ c :: rest) = (a, c :: rest) := by
+  intro a
+  induction a with
+  | nil => intro c rest _ hc; simp [readWhile, hc]
+  | cons x a ih =>
+    intro c rest h hc
+    have hx : p x = true := h x (by simp)
+    simp [readWhile, hx, ih c rest (fun b hb => h b (by simp [hb])) hc]
+
+theorem consume_app (tok rest : Bytes) : consume tok (tok ++ rest) = some rest := by simp [consume]
+
+theorem readQuoted_ok (inner rest : Bytes) (h : ∀ b ∈ inner, b ≠ DQ) : readQuoted (DQ :: (inner ++ DQ :: rest)) = some (inner, rest) := by
+  have := readWhile_stop (· != DQ) inner DQ rest (by intro b hb; simpa using h b hb) (by simp)
+  simp [readQuoted, this]
+
+/-- the header lines an RFC 7578 encoder writes for a part -/
+def CD : Bytes := ascii "Content-Disposition: form-data; name="
+def FN : Bytes := ascii "; filename="
+def CT : Bytes := ascii "Content-Type: "
+
+def headerBlock : Part → Bytes
+  | .text n _ => CD ++ DQ :: (n ++ DQ :: CRLF)
+  | .file n f => CD ++ DQ :: (n ++ DQ :: (FN ++ DQ :: (f.filename ++ DQ :: (CRLF ++ (CT ++ (f.mimetype ++ CRLF))))))
+
+def content : Part → Bytes
+  | .text _ t => t
+  | .file _ f => f.content
+
+/-- what a conforming encoder may put into a part (everything else about names, types and contents is free) -/
+structure PartOK (delim : Bytes) (p : Part) : Prop where
+  name : ∀ b ∈ (match p with | .text n _ => n | .file n _ => n), b ≠ DQ
+  name_utf8 : Http.validUtf8 (match p with | .text n _ => n | .file n _ => n) = true
+  file : ∀ n f, p = .file n f → (∀ b ∈ f.filename, b ≠ DQ) ∧ Http.validUtf8 f.filename = true ∧ Http.validUtf8 f.mimetype = true ∧
+      (f.mimetype == ascii "multipart/mixed") = false ∧ (∀ b ∈ f.mimetype, b ≠ CR)
+  text_utf8 : ∀ n t, p = .text n t → Http.validUtf8 t = true
+
+theorem headers_text (n rest : Bytes) (fuel : Nat) (hn : ∀ b ∈ n, b ≠ DQ) (hu : Http.validUtf8 n = true) :
+    headers (fuel + 2) {} (CD ++ DQ :: (n ++ DQ :: CRLF) ++ CRLF ++ rest) = some ({ name := n }, rest) := by
+  have e : CD ++ DQ :: (n ++ DQ :: CRLF) ++ CRLF ++ rest = ascii "Content-Disposition" ++ 58 :: (ascii " form-data; name=" ++ DQ :: (n ++ DQ :: (CRLF ++ (CRLF ++ rest)))) := by
+    have : CD = ascii "Content-Disposition" ++ 58 :: ascii " form-data; name=" := by decide
+    rw [this]; simp
+  rw [e, headers]
+  have h0 : consume CRLF (ascii "Content-Disposition" ++ 58 :: (ascii " form-data; name=" ++ DQ :: (n ++ DQ :: (CRLF ++ (CRLF ++ rest))))) = none := by
+    have : ascii "Content-Disposition" = 67 :: (ascii "ontent-Disposition") := by decide
+    rw [this]; simp [consume, CRLF, List.isPrefixOf]
+  have h1 := readWhile_stop isKebab (ascii "Content-Disposition") 58 (ascii " form-data; name=" ++ DQ :: (n ++ DQ :: (CRLF ++ (CRLF ++ rest)))) (by decide) (by decide)
+  simp only [h0, h1]
+  have h2 : (ascii "Content-Disposition").isEmpty = false := by decide
+  have h3 : eqIgnoreCase (ascii "Content-Disposition") (ascii "Content-Type") = false := by decide
+  have h4 : eqIgnoreCase (ascii "Content-Disposition") (ascii "Content-Disposition") = true := by decide
+  simp only [h2, Bool.false_eq_true, if_false, h3, h4, if_true]
+  have h5 : (58 : UInt8) :: (ascii " form-data; name=" ++ DQ :: (n ++ DQ :: (CRLF ++ (CRLF ++ rest)))) = ascii ": form-data; name=" ++ (DQ :: (n ++ DQ :: (CRLF ++ (CRLF ++ rest)))) := by
+    have : ascii ": form-data; name=" = 58 :: ascii " form-data; name=" := by decide
+    rw [this]; simp
+  rw [h5, consume_app]
+  simp only [Option.bind_some, readQuoted_ok n _ hn, hu, Bool.not_true, Bool.false_eq_true, if_false]
+  have h6 : consume (ascii "; ") (CRLF ++ (CRLF ++ rest)) = none := by
+    have : ascii "; " = [59, 32] := by decide
+    rw [this]; simp [consume, CRLF, List.isPrefixOf]
+  simp only [h6, consume_app, Option.bind_some]
+  rw [headers]
+  simp only [consume_app]
+
+theorem readUntil_nocr' : ∀ (a rest : Bytes), (∀ b ∈ a, b ≠ CR) → readUntil CRLF (a ++ (CRLF ++ rest)) = (a, CRLF ++ rest) := by
+  intro a
+  induction a with
+  | nil => intro rest _; simp [readUntil, CRLF, List.isPrefixOf]
+  | cons x a ih =>
+    intro rest h
+    have hx : x ≠ 13 := h x (by simp)
+    have := ih rest (fun b hb => h b (by simp [hb]))
+    have hp : CRLF.isPrefixOf (x :: (a ++ (CRLF ++ rest))) = false := by simp [CRLF, List.isPrefixOf, Ne.symm hx]
+    simp only [List.cons_append, readUntil, hp, Bool.false_eq_true, if_false, this]
+
+theorem readUntil_nocr (a rest : Bytes) (h : ∀ b ∈ a, b ≠ CR) : readUntil CRLF (a ++ CRLF ++ rest) = (a, CRLF ++ rest) := by
+  rw [List.append_assoc]; exact readUntil_nocr' a rest h
+
+theorem headers_file (n rest : Bytes) (f : FileV) (fuel : Nat) (hn : ∀ b ∈ n, b ≠ DQ) (hu : Http.validUtf8 n = true)
+    (hf : ∀ b ∈ f.filename, b ≠ DQ) (hfu : Http.validUtf8 f.filename = true) (hmu : Http.validUtf8 f.mimetype = true)
+    (hmm : (f.mimetype == ascii "multipart/mixed") = false) (hmc : ∀ b ∈ f.mimetype, b ≠ CR) :
+    headers (fuel + 3) {} (headerBlock (.file n f) ++ CRLF ++ rest) = some ({ name := n, mimetype := f.mimetype, filename := some f.filename }, rest) := by
+  have e : headerBlock (.file n f) ++ CRLF ++ rest = ascii "Content-Disposition" ++ 58 :: (ascii " form-data; name=" ++ DQ :: (n ++ DQ ::
+      (ascii "; " ++ (ascii "filename=" ++ DQ :: (f.filename ++ DQ :: (CRLF ++ (ascii "Content-Type" ++ 58 :: (32 :: (f.mimetype ++ CRLF ++ (CRLF ++ rest)))))))))) := by
+    have h1 : CD = ascii "Content-Disposition" ++ 58 :: ascii " form-data; name=" := by decide
+    have h2 : FN = ascii "; " ++ ascii "filename=" := by decide
+    have h3 : CT = ascii "Content-Type" ++ [58, 32] := by decide
+    simp only [headerBlock, h1, h2, h3]; simp
+  rw [e, headers]
+  have h0 : ∀ t, consume CRLF (ascii "Content-Disposition" ++ t) = none := by
+    intro t
+    have : ascii "Content-Disposition" = 67 :: (ascii "ontent-Disposition") := by decide
+    rw [this]; simp [consume, CRLF, List.isPrefixOf]
+  have hk1 := readWhile_stop isKebab (ascii "Content-Disposition") 58 (ascii " form-data; name=" ++ DQ :: (n ++ DQ ::
+      (ascii "; " ++ (ascii "filename=" ++ DQ :: (f.filename ++ DQ :: (CRLF ++ (ascii "Content-Type" ++ 58 :: (32 :: (f.mimetype ++ CRLF ++ (CRLF ++ rest)))))))))) (by decide) (by decide)
+  simp only [h0, hk1]
+  have h2 : (ascii "Content-Disposition").isEmpty = false := by decide
+  have h3 : eqIgnoreCase (ascii "Content-Disposition") (ascii "Content-Type") = false := by decide
+  have h4 : eqIgnoreCase (ascii "Content-Disposition") (ascii "Content-Disposition") = true := by decide
+  simp only [h2, Bool.false_eq_true, if_false, h3, h4, if_true]
+  have h5 : ∀ t, (58 : UInt8) :: (ascii " form-data; name=" ++ t) = ascii ": form-data; name=" ++ t := by
+    intro t
+    have : ascii ": form-data; name=" = 58 :: ascii " form-data; name=" := by decide
+    rw [this]; simp
+  rw [h5, consume_app]
+  simp only [Option.bind_some, readQuoted_ok n _ hn, hu, Bool.not_true, Bool.false_eq_true, if_false, consume_app, readQuoted_ok f.filename _ hf, hfu]
+  -- second line: Content-Type
+  rw [headers]
+  have h0' : ∀ t, consume CRLF (ascii "Content-Type" ++ t) = none := by
+    intro t
+    have : ascii "Content-Type" = 67 :: (ascii "ontent-Type") := by decide
+    rw [this]; simp [consume, CRLF, List.isPrefixOf]
+  have hk2 := readWhile_stop isKebab (ascii "Content-Type") 58 (32 :: (f.mimetype ++ CRLF ++ (CRLF ++ rest))) (by decide) (by decide)
+  simp only [h0', hk2]
+  have h2' : (ascii "Content-Type").isEmpty = false := by decide
+  have h4' : eqIgnoreCase (ascii "Content-Type") (ascii "Content-Type") = true := by decide
+  simp only [h2', Bool.false_eq_true, if_false, h4', if_true]
+  have h6 : (58 : UInt8) :: 32 :: (f.mimetype ++ CRLF ++ (CRLF ++ rest)) = ascii ": " ++ (f.mimetype ++ CRLF ++ (CRLF ++ rest)) := by
+    have : ascii ": " = [58, 32] := by decide
+    rw [this]; simp
+  rw [h6, consume_app]
+  simp only [Option.bind_some, readUntil_nocr f.mimetype (CRLF ++ rest) hmc, hmu, Bool.not_true, Bool.false_eq_true, if_false, hmm, consume_app]
+  rw [headers]
+  simp only [consume_app]
+
+
+end Ohkami.Multipart
+
+namespace Ohkami.Multipart
+open Ohkami
+
+def DASH2 : Bytes := [45, 45]
+
+/-- what follows the delimiter line by line: the parts, each closed by the delimiter, and the final `--` -/
+def tail (delim : Bytes) : List Part → Bytes
+  | [] => DASH2 ++ CRLF
+  | p :: ps => CRLF ++ (headerBlock p ++ CRLF ++ (content p ++ CRLF ++ (delim ++ tail delim ps)))
+
+/-- the body an RFC 7578 encoder writes for a form, with `delim` = `--` + boundary -/
+def encode (delim : Bytes) (form : List Part) : Bytes := delim ++ tail delim form
+
+/-- the delimiter does not occur in the content (nor straddling its end): the choice a conforming encoder makes -/
+def Fits (delim : Bytes) (p : Part) (rest : Bytes) : Prop :=
+  ∀ i, i < (content p ++ CRLF).length → delim.isPrefixOf (((content p ++ CRLF) ++ delim ++ rest).drop i) = false
+
+def FormOK (delim : Bytes) : List Part → Prop
+  | [] => True
+  | p :: ps => PartOK delim p ∧ Fits delim p (tail delim ps) ∧ FormOK delim ps
+
+theorem headers_part (delim : Bytes) (p : Part) (hp : PartOK delim p) (rest : Bytes) (fuel : Nat) (hf : 3 ≤ fuel) :
+    ∃ acc, headers fuel {} (headerBlock p ++ CRLF ++ rest) = some (acc, rest) ∧ acc.name = (match p with | .text n _ => n | .file n _ => n) ∧
+      (match p with | .text _ _ => acc.filename = none | .file _ f => acc.filename = some f.filename ∧ acc.mimetype = f.mimetype) := by
+  obtain ⟨k, rfl⟩ : ∃ k, fuel = k + 3 := ⟨fuel - 3, by omega⟩
+  cases p with
+  | text n t =>
+    refine ⟨{ name := n }, ?_, rfl, rfl⟩
+    have := headers_text n rest (k + 1) hp.name hp.name_utf8
+    simpa [headerBlock] using this
+  | file n f =>
+    obtain ⟨h1, h2, h3, h4, h5⟩ := hp.file n f rfl
+    exact ⟨_, headers_file n rest f k hp.name hp.name_utf8 h1 h2 h3 h4 h5, rfl, rfl, rfl⟩
+
+theorem headerBlock_length (p : Part) : 2 ≤ (headerBlock p).length := by
+  cases p <;> simp [headerBlock, CD, ascii] <;> omega
+
+theorem parts_tail (delim : Bytes) : ∀ (form : List Part) (acc : List Part) (fuel : Nat), FormOK delim form → form.length < fuel →
+    parts fuel delim (tail delim form) acc = some (acc ++ form) := by
+  intro form
+  induction form with
+  | nil =>
+    intro acc fuel _ hf
+    cases fuel with
+    | zero => simp at hf
+    | succ f =>
+      have : consume CRLF (tail delim []) = none := by simp [tail, consume, CRLF, DASH2, List.isPrefixOf]
+      simp [parts, this]
+  | cons p ps ih =>
+    intro acc fuel hok hf
+    obtain ⟨hp, hfit, hrest⟩ := hok
+    cases fuel with
+    | zero => simp at hf
+    | succ f =>
+      have e : tail delim (p :: ps) = CRLF ++ (headerBlock p ++ CRLF ++ (content p ++ CRLF ++ (delim ++ tail delim ps))) := rfl
+      rw [e, parts, consume_app]
+      simp only
+      have hlen : 3 ≤ (headerBlock p ++ CRLF ++ (content p ++ CRLF ++ (delim ++ tail delim ps))).length + 1 := by
+        have := headerBlock_length p
+        simp only [List.length_append]; omega
+      obtain ⟨hacc, hh, hname, hkind⟩ := headers_part delim p hp (content p ++ CRLF ++ (delim ++ tail delim ps)) _ hlen
+      rw [hh]
+      simp only
+      have hru : readUntil delim (content p ++ CRLF ++ (delim ++ tail delim ps)) = (content p ++ CRLF, delim ++ tail delim ps) := by
+        have := C10.readUntil_exact delim (content p ++ CRLF) (tail delim ps) hfit
+        simpa [List.append_assoc] using this
+      rw [hru]
+      simp only
+      have hl2 : ¬ ((content p ++ CRLF).length < 2) := by simp [CRLF]
+      have htake : (content p ++ CRLF).take ((content p ++ CRLF).length - 2) = content p := by simp [CRLF]
+      have hdrop : (content p ++ CRLF).drop ((content p ++ CRLF).length - 2) = CRLF := by simp [CRLF]
+      simp only [hl2, if_false, htake, hdrop, bne_self_eq_false, Bool.false_eq_true, consume_app]
+      cases p with
+      | text n t =>
+        simp only at hkind hname
+        have hu := hp.text_utf8 n t rfl
+        simp only [hkind, content, hu, if_true, hname]
+        rw [ih _ f hrest (by simp at hf; omega)]
+        simp
+      | file n fv =>
+        simp only at hkind hname
+        simp only [hkind.1, hkind.2, content, hname]
+        rw [ih _ f hrest (by simp at hf; omega)]
+        simp
+
+/-- **A form survives the trip.**  For every form (any number of text fields and files, any names, filenames, media types, binary
+contents) written by a conforming RFC 7578 encoder with a delimiter that occurs in no part, `Multipart::parse` recovers exactly the parts:
+the same names and texts and, per file, the same filename, media type and byte-exact content, in submission order. -/
+theorem parse_encode (delim : Bytes) (form : List Part) (hd : ∀ b ∈ delim, b ≠ CR) (hok : FormOK delim form) :
+    parse (encode delim form) = some form := by
+  unfold parse encode
+  cases form with
+  | nil =>
+    have e : delim ++ tail delim [] = (delim ++ DASH2) ++ (CRLF ++ []) := by simp [tail]
+    have hd' : ∀ b ∈ delim ++ DASH2, b ≠ CR := by
+      intro b hb
+      rcases List.mem_append.mp hb with h | h
+      · exact hd b h
+      · simp [DASH2] at h; subst h; decide
+    rw [e, readUntil_nocr' _ _ hd']
+    simp [DASH2, CRLF]
+  | cons p ps =>
+    have e : delim ++ tail delim (p :: ps) = delim ++ (CRLF ++ (headerBlock p ++ CRLF ++ (content p ++ CRLF ++ (delim ++ tail delim ps)))) := rfl
+    rw [e, readUntil_nocr' _ _ hd]
+    simp only
+    have hne : ((CRLF ++ (headerBlock p ++ CRLF ++ (content p ++ CRLF ++ (delim ++ tail delim ps)))).isEmpty ||
+        (CRLF ++ (headerBlock p ++ CRLF ++ (content p ++ CRLF ++ (delim ++ tail delim ps))) == CRLF)) = false := by
+      have h2 := headerBlock_length p
+      have : (CRLF ++ (headerBlock p ++ CRLF ++ (content p ++ CRLF ++ (delim ++ tail delim ps)))).length ≠ CRLF.length := by
+        simp only [List.length_append, CRLF, List.length_cons, List.length_nil]; omega
+      simp only [Bool.or_eq_false_iff]
+      constructor
+      · simp [CRLF]
+      · apply Bool.eq_false_iff.mpr
+        intro h
+        exact this (congrArg List.length (eq_of_beq h))
+    simp only [hne, Bool.and_false, Bool.false_eq_true, if_false]
+    have := parts_tail delim (p :: ps) [] ((delim ++ (CRLF ++ (headerBlock p ++ CRLF ++ (content p ++ CRLF ++ (delim ++ tail delim ps))))).length + 1) hok
+      (by
+        have : ∀ l : List Part, l.length ≤ (tail delim l).length := by
+          intro l
+          induction l with
+          | nil => simp
+          | cons q qs ihq => have hc : CRLF.length = 2 := rfl; simp only [tail, List.length_append, List.length_cons]; omega
+        have h := this (p :: ps)
+        rw [show tail delim (p :: ps) = CRLF ++ (headerBlock p ++ CRLF ++ (content p ++ CRLF ++ (delim ++ tail delim ps))) from rfl] at h
+        simp only [List.length_append] at h ⊢; omega)
+    simpa [tail] using this
+
+-- non-vacuity: a text field and a file whose content holds CR LF, dashes and a NUL, under the delimiter `--X`
+private def dX : Bytes := [45, 45, 88]
+private def form2 : List Part := [.text [97] [104, 105], .file [102] ⟨[120, 46, 98], [97, 47, 98], [13, 10, 45, 45, 0]⟩]
+example : FormOK dX form2 := by
+  refine ⟨⟨by decide, by decide, ?_, ?_⟩, by unfold Fits; decide, ⟨by decide, by decide, ?_, ?_⟩, by unfold Fits; decide, trivial⟩
+  · intro n f h; cases h
+  · intro n t h; cases h; decide
+  · intro n f h; cases h; decide
+  · intro n t h; cases h
+
+end Ohkami.Multipart
